@@ -378,6 +378,68 @@ pub fn claim(f: &Filter, label: &str, c: bool) {
     }
 }
 
+/// `a == b` for pairs of terms, decided by the solver (not syntactically)
+pub fn prove_same(f: &Filter, label: &str, pairs: &[(&T, &T)]) {
+    let cs: Vec<T> = pairs.iter().map(|(a, b)| t::eq(a, b)).collect();
+    prove(f, label, t::and(&cs));
+}
+
+fn opt_pair<'a>(a: &'a Option<T>, b: &'a Option<T>, out: &mut Vec<T>) -> bool {
+    match (a, b) {
+        (Some(x), Some(y)) => {
+            out.push(t::eq(x, y));
+            true
+        }
+        (None, None) => true,
+        _ => false,
+    }
+}
+
+/// All requests except `skip` are unchanged (same keys; amounts equal for the solver).
+pub fn reqs_same(f: &Filter, label: &str, pre: &Snap, post: &Snap, skip: Option<&(u64, String)>) {
+    let mut cs = vec![];
+    let mut keys_ok = true;
+    for (k, v) in &pre.reqs {
+        if Some(k) == skip {
+            continue;
+        }
+        match post.reqs.get(k) {
+            Some(w) => cs.push(t::eq(v, w)),
+            None => keys_ok = false,
+        }
+    }
+    for k in post.reqs.keys() {
+        if Some(k) != skip && !pre.reqs.contains_key(k) {
+            keys_ok = false;
+        }
+    }
+    if keys_ok {
+        prove(f, label, t::and(&cs));
+    } else {
+        claim(f, label, false);
+    }
+}
+
+/// The tracked transfers except `skip` are unchanged.
+pub fn packets_same(f: &Filter, label: &str, pre: &Snap, post: &Snap, skip: &[u64]) {
+    let mut cs = vec![];
+    let mut ok = true;
+    for (k, v) in &pre.packets {
+        if skip.contains(k) {
+            continue;
+        }
+        match post.packets.get(k) {
+            Some(x) if x.0 == v.0 && x.2 == v.2 && x.3 == v.3 => cs.push(t::eq(&x.1, &v.1)),
+            _ => ok = false,
+        }
+    }
+    if ok {
+        prove(f, label, t::and(&cs));
+    } else {
+        claim(f, label, false);
+    }
+}
+
 fn transfers(msgs: &[Emitted]) -> Vec<&Emitted> {
     msgs.iter().filter(|m| matches!(m, Emitted::Transfer { .. })).collect()
 }
@@ -661,12 +723,8 @@ pub fn post_op(cx: &Ctx, b: &Built, op: &Op, s: &StepOut) {
                 prove(f, "C05:repeated unstakes accumulate into one request", t::eq(&new, &t::add(old.as_deref().unwrap_or("0"), &u)));
                 prove(f, "C05:pending batch total grows by the unstaked amount", t::eq(&post.batches[&pid].total, &t::add(&pre.batches[&pid].total, &u)));
                 claim(f, "C05:request counter counts distinct requesters", post.batches[&pid].count == Some(pre.batches[&pid].count.unwrap_or(0) + if old.is_none() { 1 } else { 0 }));
-                for (k, v) in &pre.reqs {
-                    if *k != (pid, user.clone()) {
-                        claim(f, "C05:other requests untouched by unstake", post.reqs.get(k) == Some(v));
-                    }
-                }
-                claim(f, "C01:unstake leaves the totals alone", post.n == pre.n && post.l == pre.l && post.fees == pre.fees && post.rewards == pre.rewards);
+                reqs_same(f, "C05:other requests untouched by unstake", pre, post, Some(&(pid, user.clone())));
+                prove_same(f, "C01:unstake leaves the totals alone", &[(&post.n, &pre.n), (&post.l, &pre.l), (&post.fees, &pre.fees), (&post.rewards, &pre.rewards)]);
                 claim(f, "C03:unstake emits no message", msgs.is_empty());
             }
         }
@@ -684,12 +742,13 @@ pub fn post_op(cx: &Ctx, b: &Built, op: &Op, s: &StepOut) {
                 prove(f, "C01:submit subtracts exactly the recorded expected amount", t::eq(&post.n, &t::sub(&pre.n, &e)));
                 prove(f, "C03:submit reduces the LST total by the batch total", t::eq(&post.l, &t::sub(&pre.l, &pb.total)));
                 prove(f, "C04:submit does not lower the redemption rate of remaining holders", t::implies(&t::gt(&post.l, "0"), &t::ge(&t::mul(&post.n, &pre.l), &t::mul(&pre.n, &post.l))));
-                claim(f, "C06:submitted batch keeps its total and becomes Submitted", nb.total == pb.total && nb.status == BatchStatus::Submitted);
+                claim(f, "C06:submitted batch becomes Submitted", nb.status == BatchStatus::Submitted);
+                prove_same(f, "C06:submitted batch keeps its total", &[(&nb.total, &pb.total)]);
                 claim(f, "C06:submitted batch is due one unbonding period later", nb.next == Some(s.now + pre.cfg.native_chain_config.unbonding_period));
                 match post.batches.get(&(pid + 1)) {
                     None => claim(f, "C06:new pending batch opened", false),
                     Some(np) => {
-                        claim(f, "C06:new pending batch has the next id, is empty and due one batch period later", post.pending_id == pid + 1 && np.status == BatchStatus::Pending && np.total == "0" && np.count == Some(0) && np.next == Some(s.now + pre.cfg.batch_period) && np.expected.is_none() && np.received.is_none());
+                        claim(f, "C06:new pending batch has the next id, is empty and due one batch period later", post.pending_id == pid + 1 && np.status == BatchStatus::Pending && np.count == Some(0) && np.next == Some(s.now + pre.cfg.batch_period) && np.expected.is_none() && np.received.is_none());
                     }
                 }
                 let burns: Vec<&Emitted> = msgs.iter().filter(|m| matches!(m, Emitted::Burn { .. })).collect();
@@ -702,7 +761,10 @@ pub fn post_op(cx: &Ctx, b: &Built, op: &Op, s: &StepOut) {
                     prove(f, "C03:submit burns exactly the batch total", t::eq(amount, &pb.total));
                 }
                 claim(f, "C03:submit emits no other message", msgs.len() == 1 + posts(msgs).len());
-                claim(f, "C05:submit leaves requests untouched", pre.reqs == post.reqs);
+                reqs_same(f, "C05:submit leaves requests untouched", pre, post, None);
+                if let Some(np) = post.batches.get(&(pid + 1)) {
+                    prove(f, "C06:new pending batch starts with a zero total", t::eq(&np.total, "0"));
+                }
                 check_oracle(cx, s, msgs, true);
             } else if let Tx::Err(e) = &s.tx {
                 if !stopped && nonempty && due {
@@ -725,15 +787,17 @@ pub fn post_op(cx: &Ctx, b: &Built, op: &Op, s: &StepOut) {
                         prove(f, "C05:payout = floor(received*ownRequest/batchTotal)", t::eq(&coins[0].1, &spec));
                     }
                     claim(f, "C05:claim is consumed", !post.reqs.contains_key(&(*batch, user.clone())));
-                    for (k, v) in &pre.reqs {
-                        if *k != (*batch, user.clone()) {
-                            claim(f, "C08:withdraw consumes only the caller's own request", post.reqs.get(k) == Some(v));
-                        }
-                    }
+                    reqs_same(f, "C08:withdraw consumes only the caller's own request", pre, post, Some(&(*batch, user.clone())));
                     let nb = &post.batches[batch];
-                    claim(f, "C05:withdraw leaves batch total / received / expected untouched", nb.total == pb.total && nb.received == pb.received && nb.expected == pb.expected);
+                    let mut cs = vec![t::eq(&nb.total, &pb.total)];
+                    let shape = opt_pair(&nb.received, &pb.received, &mut cs) && opt_pair(&nb.expected, &pb.expected, &mut cs);
+                    if shape {
+                        prove(f, "C05:withdraw leaves batch total / received / expected untouched", t::and(&cs));
+                    } else {
+                        claim(f, "C05:withdraw leaves batch total / received / expected untouched", false);
+                    }
                 }
-                claim(f, "C01:withdraw leaves the totals alone", post.n == pre.n && post.l == pre.l && post.fees == pre.fees && post.rewards == pre.rewards);
+                prove_same(f, "C01:withdraw leaves the totals alone", &[(&post.n, &pre.n), (&post.l, &pre.l), (&post.fees, &pre.fees), (&post.rewards, &pre.rewards)]);
                 claim(f, "C03:withdraw emits only the payout and the oracle post", msgs.len() == 1 + posts(msgs).len() && transfers(msgs).is_empty());
                 check_oracle(cx, s, msgs, false);
             } else if let Tx::Err(e) = &s.tx {
@@ -792,8 +856,12 @@ pub fn post_op(cx: &Ctx, b: &Built, op: &Op, s: &StepOut) {
                 let nb = &post.batches[batch];
                 claim(f, "C06:batch is now Received", nb.status == BatchStatus::Received && nb.next.is_none());
                 prove(f, "C02:received amount recorded exactly", t::eq(nb.received.as_deref().unwrap_or("0"), &r));
-                claim(f, "C05:receipt leaves total, requests and counter untouched", pb.map(|b| b.total == nb.total && b.count == nb.count).unwrap_or(false) && pre.reqs == post.reqs);
-                claim(f, "C01:receipt leaves the totals alone", post.n == pre.n && post.l == pre.l && post.fees == pre.fees && post.rewards == pre.rewards);
+                claim(f, "C05:receipt leaves the request counter untouched", pb.map(|b| b.count == nb.count).unwrap_or(false));
+                if let Some(pb) = pb {
+                    prove_same(f, "C05:receipt leaves the batch total untouched", &[(&pb.total, &nb.total)]);
+                }
+                reqs_same(f, "C05:receipt leaves requests untouched", pre, post, None);
+                prove_same(f, "C01:receipt leaves the totals alone", &[(&post.n, &pre.n), (&post.l, &pre.l), (&post.fees, &pre.fees), (&post.rewards, &pre.rewards)]);
                 claim(f, "C03:receipt emits no message", msgs.is_empty());
             }
         }
@@ -845,12 +913,8 @@ pub fn post_op(cx: &Ctx, b: &Built, op: &Op, s: &StepOut) {
                 for m in &tr {
                     check_transfer_shape(cx, m, s.now, "recover");
                 }
-                for (k, v) in &pre.packets {
-                    if !removed.contains(k) {
-                        claim(f, "C07:other tracked transfers untouched by recovery", post.packets.get(k).map(|x| x.0 == v.0 && x.1 == v.1 && x.2 == v.2 && x.3 == v.3).unwrap_or(false));
-                    }
-                }
-                claim(f, "C01:recovery leaves the totals alone", post.n == pre.n && post.l == pre.l && post.fees == pre.fees && post.rewards == pre.rewards);
+                packets_same(f, "C07:other tracked transfers untouched by recovery", pre, post, &removed);
+                prove_same(f, "C01:recovery leaves the totals alone", &[(&post.n, &pre.n), (&post.l, &pre.l), (&post.fees, &pre.fees), (&post.rewards, &pre.rewards)]);
                 check_new_packets_tracked(cx, s, msgs);
             } else if let Tx::Err(e) = &s.tx {
                 let cand: Vec<&(String, T, String, PacketLifecycleStatus)> = pre.packets.values().filter(|p| p.2 == recv && refundable(&p.3)).collect();
@@ -872,7 +936,7 @@ pub fn post_op(cx: &Ctx, b: &Built, op: &Op, s: &StepOut) {
                 if let Some(Emitted::Send { coins, .. }) = ss.first() {
                     prove(f, "C11:treasury receives exactly the requested amount", t::eq(&coins[0].1, &x));
                 }
-                claim(f, "C01:fee withdrawal leaves the other totals alone", post.n == pre.n && post.l == pre.l && post.rewards == pre.rewards);
+                prove_same(f, "C01:fee withdrawal leaves the other totals alone", &[(&post.n, &pre.n), (&post.l, &pre.l), (&post.rewards, &pre.rewards)]);
             } else if let Tx::Err(e) = &s.tx {
                 if *sender == P::Admin && pre.cfg.protocol_fee_config.treasury_address.is_some() {
                     prove(f, &format!("C11:admin can withdraw any amount up to the accrued fees [{}]", short(e)), t::gt(&x, &pre.fees));
@@ -884,16 +948,22 @@ pub fn post_op(cx: &Ctx, b: &Built, op: &Op, s: &StepOut) {
             let had = pre.packets.get(seq);
             match (outcome, had) {
                 (0, Some(_)) => claim(f, "C07:success ack removes the record", !post.packets.contains_key(seq)),
-                (1, Some(p)) => claim(f, "C07:error ack marks the transfer refundable", post.packets.get(seq).map(|q| q.3 == PacketLifecycleStatus::AckFailure && q.0 == p.0 && q.1 == p.1 && q.2 == p.2).unwrap_or(false)),
-                (_, Some(p)) => claim(f, "C07:timeout marks the transfer refundable", post.packets.get(seq).map(|q| q.3 == PacketLifecycleStatus::TimedOut && q.0 == p.0 && q.1 == p.1 && q.2 == p.2).unwrap_or(false)),
+                (1, Some(p)) => {
+                    claim(f, "C07:error ack marks the transfer refundable", post.packets.get(seq).map(|q| q.3 == PacketLifecycleStatus::AckFailure && q.0 == p.0 && q.2 == p.2).unwrap_or(false));
+                    if let Some(q) = post.packets.get(seq) {
+                        prove_same(f, "C07:error ack keeps the recorded amount", &[(&q.1, &p.1)]);
+                    }
+                }
+                (_, Some(p)) => {
+                    claim(f, "C07:timeout marks the transfer refundable", post.packets.get(seq).map(|q| q.3 == PacketLifecycleStatus::TimedOut && q.0 == p.0 && q.2 == p.2).unwrap_or(false));
+                    if let Some(q) = post.packets.get(seq) {
+                        prove_same(f, "C07:timeout keeps the recorded amount", &[(&q.1, &p.1)]);
+                    }
+                }
                 _ => {}
             }
-            for (k, v) in &pre.packets {
-                if k != seq {
-                    claim(f, "C07:other tracked transfers untouched by the callback", post.packets.get(k).map(|x| x.0 == v.0 && x.1 == v.1 && x.2 == v.2 && x.3 == v.3).unwrap_or(false));
-                }
-            }
-            claim(f, "C01:callback leaves the totals alone", post.n == pre.n && post.l == pre.l && post.fees == pre.fees && post.rewards == pre.rewards);
+            packets_same(f, "C07:other tracked transfers untouched by the callback", pre, post, &[*seq]);
+            prove_same(f, "C01:callback leaves the totals alone", &[(&post.n, &pre.n), (&post.l, &pre.l), (&post.fees, &pre.fees), (&post.rewards, &pre.rewards)]);
         }
         Op::StrayCallback { seq, foreign_channel, .. } => {
             if *foreign_channel || !pre.packets.contains_key(seq) {
@@ -920,9 +990,10 @@ pub fn post_op(cx: &Ctx, b: &Built, op: &Op, s: &StepOut) {
                     prove(f, "C10:resume sets the LST total to exactly the supplied value", t::eq(&post.l, &input("rl")));
                     prove(f, "C10:resume sets the reward total to exactly the supplied value", t::eq(&post.rewards, &input("rr")));
                 } else {
-                    claim(f, "C10:resume with the current totals keeps them", post.n == pre.n && post.l == pre.l && post.rewards == pre.rewards);
+                    prove_same(f, "C10:resume with the current totals keeps them", &[(&post.n, &pre.n), (&post.l, &pre.l), (&post.rewards, &pre.rewards)]);
                 }
-                claim(f, "C10:resume leaves fees, ownership fields alone", post.fees == pre.fees && post.pending_owner == pre.pending_owner && post.min_time == pre.min_time && post.admin == pre.admin);
+                prove_same(f, "C10:resume leaves the fee balance alone", &[(&post.fees, &pre.fees)]);
+                claim(f, "C10:resume leaves the ownership fields alone", post.pending_owner == pre.pending_owner && post.min_time == pre.min_time && post.admin == pre.admin);
                 claim(f, "C10:resume emits only the oracle post", msgs.len() == posts(msgs).len());
                 check_oracle(cx, s, msgs, true);
             }
@@ -949,7 +1020,8 @@ pub fn post_op(cx: &Ctx, b: &Built, op: &Op, s: &StepOut) {
             if s.tx.is_ok() {
                 claim(f, "C08:ownership nomination / revocation only for the admin", Some(who_addr(who, sender)) == pre.admin);
                 claim(f, "C12:nomination / revocation does not change the admin", post.admin == pre.admin);
-                claim(f, "C12:only the ownership fields of the state change", raw_equal_except(&pre.raw, &post.raw, &[b"state"]) && post.n == pre.n && post.l == pre.l && post.fees == pre.fees && post.rewards == pre.rewards);
+                claim(f, "C12:only the state item changes", raw_equal_except(&pre.raw, &post.raw, &[b"state"]));
+                prove_same(f, "C12:nomination / revocation leaves the totals alone", &[(&post.n, &pre.n), (&post.l, &pre.l), (&post.fees, &pre.fees), (&post.rewards, &pre.rewards)]);
             }
         }
         Op::AcceptOwnership { sender } => {
